@@ -52,22 +52,26 @@ OrderWalk(s, hfs, hf, ord) ==
 CheckHalffaceOrdering(s, hfs) ==
   OrderWalk(s, hfs, hfs[1], <<2, 4, 3, 5>>) /\ OrderWalk(s, hfs, hfs[2], <<3, 4, 2, 5>>)
 
-(* the automatic re-ordering of add_cell(halffaces, true)                  *)
-HexReorder(s, hfs) ==     \* returns [ok, l, err]
+(* the automatic re-ordering of add_cell(halffaces, true): the first      *)
+(* halfface stays, its neighbours across its halfedges go to positions    *)
+(* 2, 4, 3, 5, the halfface opposite to it is found by walking over the    *)
+(* first neighbour.  A missing neighbour rejects the list (repaired        *)
+(* behaviour, /repo 739ef03; before, the slot kept InvalidHalfFaceHandle). *)
+HexReorder(s, hfs) ==     \* returns [ok, l]
   LET top == hfs[1]
       hes == HFHes(s, top)
       ordTop == <<2, 4, 3, 5>>
       place(acc, he) ==
         LET a == GetAdjHF(s, top, he, hfs) IN
-        IF a = -1 THEN acc
-        ELSE [l |-> [acc.l EXCEPT ![ordTop[acc.idx + 1] + 1] = a], idx |-> acc.idx + 1]
-      r  == FoldLeft(place, [l |-> <<top, -1, -1, -1, -1, -1>>, idx |-> 0], hes)
-      h1 == GetAdjHF(s, top, hes[1], hfs)
-  IN IF h1 = -1 THEN [ok |-> FALSE, l |-> r.l, err |-> "hex_reorder_walks_through_invalid_halfface"]
-     ELSE LET e1 == NextHE(s, NextHE(s, Opp(hes[1]), h1), h1)
+        IF ~acc.ok \/ a = -1 THEN [l |-> acc.l, idx |-> acc.idx, ok |-> FALSE]
+        ELSE [l |-> [acc.l EXCEPT ![ordTop[acc.idx + 1] + 1] = a], idx |-> acc.idx + 1, ok |-> TRUE]
+      r  == FoldLeft(place, [l |-> <<top, -1, -1, -1, -1, -1>>, idx |-> 0, ok |-> TRUE], hes)
+  IN IF ~r.ok THEN [ok |-> FALSE, l |-> r.l]
+     ELSE LET h1 == GetAdjHF(s, top, hes[1], hfs)
+              e1 == NextHE(s, NextHE(s, Opp(hes[1]), h1), h1)
               h2 == IF e1 = -1 THEN -1 ELSE GetAdjHF(s, h1, e1, hfs)
-          IN IF h2 = -1 THEN [ok |-> FALSE, l |-> r.l, err |-> ""]
-             ELSE [ok |-> TRUE, l |-> [r.l EXCEPT ![2] = h2], err |-> ""]
+          IN IF h2 = -1 THEN [ok |-> FALSE, l |-> r.l]
+             ELSE [ok |-> TRUE, l |-> [r.l EXCEPT ![2] = h2]]
 
 HexAddCell(s, hfs, check) ==
   IF Len(hfs) # 6 THEN [s EXCEPT !.ret = -1]
@@ -75,7 +79,7 @@ HexAddCell(s, hfs, check) ==
   ELSE IF ~check THEN AddCell(s, hfs, FALSE)
   ELSE IF CheckHalffaceOrdering(s, hfs) THEN AddCell(s, hfs, TRUE)
   ELSE LET r == HexReorder(s, hfs) IN
-       IF ~r.ok THEN (IF r.err = "" THEN [s EXCEPT !.ret = -1] ELSE SetErr([s EXCEPT !.ret = -1], r.err))
+       IF ~r.ok THEN [s EXCEPT !.ret = -1]
        ELSE IF -1 \in Rng(r.l) THEN SetErr([s EXCEPT !.ret = -1], "hex_reorder_passes_invalid_halfface_to_add_cell")
        ELSE AddCell(s, r.l, TRUE)
 
